@@ -1105,7 +1105,11 @@ class Executor:
                 out.append(r)
                 continue
             fv = r.v
-            for (s, vs) in self.ev_many(e.args, r.st):
+            if self._is_log_call(e, fv, r.st):
+                argres = self._ev_log_args(e.args, r.st)
+            else:
+                argres = self.ev_many(e.args, r.st)
+            for (s, vs) in argres:
                 if isinstance(vs, SExc):
                     out.append(Res(s, None, vs))
                     continue
@@ -1118,6 +1122,25 @@ class Executor:
                         continue
                     out += self.call(fv, s2, vs, dict(zip(kwnames, kvs)), e)
         return out
+
+    LOG_METHODS = ("debug", "info", "warning", "error", "critical", "exception")
+
+    def _is_log_call(self, e, fv, st):
+        if not (isinstance(e.func, ast.Attribute) and e.func.attr in self.LOG_METHODS and isinstance(fv, StubV)):
+            return False
+        recv = fv.self_v if hasattr(fv, "self_v") else None
+        return isinstance(recv, Ref) and isinstance(st.obj(recv), HObj) and st.obj(recv).cls == "Logger"
+
+    def _ev_log_args(self, args, st):
+        """arguments of a log call that fall outside the subset are replaced by an opaque value: they are ASSUMED pure and
+        total (recorded in env.assumptions); arguments inside the subset are evaluated normally"""
+        try:
+            self.ev_many(args, st.fork())
+            return self.ev_many(args, st)
+        except Unsupported:
+            pass
+        self.env.assumptions.add("log-message arguments outside the subset are assumed pure and total")
+        return [(st, [Opaque("log-argument") for _ in args])]
 
     def call(self, fv, st, args, kwargs, node):
         self.npaths += 1
